@@ -314,24 +314,7 @@ pub fn gen_stmt(r: &mut Rng, tabs: &[Tab], st: &State, j: usize, len: usize) -> 
         // INSERT INTO t SELECT * FROM src: mostly from a table with the same number of columns
         let same: Vec<usize> = live.iter().cloned().filter(|x| tabs[*x].cols.len() == tb.cols.len() && (*x != t || r.chance(1, 4))).collect();
         let src = if !same.is_empty() && r.chance(9, 10) { *r.pick(&same) } else { *r.pick(&live) };
-        // the plain form may take the bulk-transfer path, whose primary-key check depends on the
-        // append-mode tracker (C10): only when no key can collide
-        let collide = match &tb.pk {
-            Some(pk) if tabs[src].cols.len() == tb.cols.len() => {
-                let mut keys: Vec<Vec<V>> = rows_of(st, t).iter().map(|x| proj(pk, x)).collect();
-                let mut c = false;
-                for x in rows_of(st, src) {
-                    let k2 = proj(pk, x);
-                    if keys.contains(&k2) || k2.iter().any(|v| v.is_none()) {
-                        c = true;
-                    }
-                    keys.push(k2);
-                }
-                c
-            }
-            _ => false,
-        };
-        let simple = !collide && r.chance(2, 3);
+        let simple = r.chance(1, 2);
         return Stmt::InsertSelect { dst: t, src, simple, sel: vec![] };
     }
     if k < 95 {
